@@ -477,6 +477,9 @@ func (r *run) script() {
 			r.open(g)
 		}
 
+	case burstScript:
+		r.scriptIdleBurst()
+
 	default:
 		panic("unknown script " + sp.Script)
 	}
